@@ -52,6 +52,10 @@ pub(crate) async fn validate_bands(
             monitor.error(err);
             continue 'band;
         };
+        if let Err(err) = validate_index_hunks(&band, monitor.clone()).await {
+            monitor.error(err);
+            continue 'band;
+        };
         let st = match archive
             .open_stored_tree(BandSelectionPolicy::Specified(*band_id))
             .await
@@ -72,6 +76,44 @@ pub(crate) async fn validate_bands(
         merge_block_lens(&mut block_lens, &band_block_lens);
     }
     Ok(block_lens)
+}
+
+/// Check that the hunks of this band's own index are all present and readable.
+///
+/// Walking the stored tree can't detect this, because it skips hunks that are missing
+/// or can't be decoded.
+async fn validate_index_hunks(band: &Band, monitor: Arc<dyn Monitor>) -> Result<()> {
+    let band_id = band.id();
+    let mut index = band.index();
+    let hunks = index.hunks_available().await?;
+    for (expected, hunk_number) in hunks.iter().enumerate() {
+        if *hunk_number != expected as u32 {
+            monitor.error(Error::InvalidMetadata {
+                details: format!("Index hunk {expected} of {band_id} is missing"),
+            });
+            break;
+        }
+    }
+    for hunk_number in &hunks {
+        match index.read_hunk(*hunk_number).await {
+            Ok(Some(_)) => (),
+            Ok(None) => monitor.error(Error::InvalidMetadata {
+                details: format!("Index hunk {hunk_number} of {band_id} is missing"),
+            }),
+            Err(err) => monitor.error(err),
+        }
+    }
+    if let Some(index_hunk_count) = band.get_info().await?.index_hunk_count {
+        if index_hunk_count != hunks.len() as u64 {
+            monitor.error(Error::InvalidMetadata {
+                details: format!(
+                    "Band {band_id} should have {index_hunk_count} index hunks but {} are present",
+                    hunks.len()
+                ),
+            });
+        }
+    }
+    Ok(())
 }
 
 fn merge_block_lens(into: &mut HashMap<BlockHash, u64>, from: &HashMap<BlockHash, u64>) {
